@@ -152,6 +152,7 @@ def build_cases(plan, tier, seed, wd, rep):
         # the model's Close/ack needs an initialised DB: make sure a schedule starts litestream
         if not any(st[0] == "LsOpen" for st in d[:1]):
             d = [["LsOpen", "new"]] + d
+        cfg["full"] = (i % 4 == 1)      # these traces also carry the pre-state for the Core.tla binding
         cases.append({"id": i, "cfg": cfg, "sched": d, "label": label})
     return cases
 
@@ -201,6 +202,10 @@ def run(prop, argv):
         _t1 = _t.time()
         events, verdicts, hazards = corelib.judge(rep, wd, out, plan["invariants"], prop)
         rep.cov["phase_s"]["judge"] = round(_t.time() - _t1, 1)
+        if prop in ("C01", "C04") and not replay_path:
+            _t2 = _t.time()
+            corelib.conformance(rep, wd, out, prop)
+            rep.cov["phase_s"]["conformance"] = round(_t.time() - _t2, 1)
         rep.cov["traces_validated_against_impl"] = len(events)
         rep.cov["evaluations"] = len(events)
         nontriv = 0
